@@ -22,7 +22,8 @@ fn spec(tier: Tier) -> SimSpec {
             chans: (1, 2),
             mems: MEMS_LARGE,
             budgets: &[20_000_000, 20_000_000, 60_000, 3_000],
-            resends: &[100, 20, 50, 300, 400],
+            // also resend times beyond the 3 s after which a sent packet is forgotten
+            resends: &[100, 20, 50, 300, 400, 4000, 3500],
             clients: (1, 1),
             must_have: None,
         },
